@@ -14,7 +14,10 @@ by differential runs on the real classes only (no mdriver session):
      garbage after the call(s); run B hands over private deep copies and never writes.
      The traces (counters, drift_state, public statistics, digests of stored data) must be
      identical.  Layouts: ndarray C order / Fortran order / strided view of a larger
-     array, DataFrame single dtype (one block: `.values` is a view) / mixed dtype;
+     array, DataFrame single dtype (one block: `.values` is a view) / mixed dtype; for
+     univariate data also 1-D ndarray, 1-D strided view, Series (batch: a column; stream: a
+     row), Python scalar, 0-d array and ONE 1-D buffer the caller refills before every
+     update (also for multi-feature streaming rows);
      overwrite after every call, and after one call only, for every call position
      (reference batches, test batches, single observations, labels);
   3. injectors: input (and dict arguments) unchanged, result is a new object sharing no
@@ -88,6 +91,16 @@ def make(layout, M, names=None, ints=False):
     if layout == "1d":
         a = M.ravel().copy()
         return a, a
+    if layout == "1d-strided":
+        base = np.full(2 * M.size + 1, -3, dtype=M.dtype)
+        base[1::2][:M.size] = M.ravel()
+        v = base[1::2][:M.size]
+        return v, base
+    if layout == "scalar":
+        return (int(M[0, 0]) if ints else float(M[0, 0])), None      # immutable: nothing to overwrite
+    if layout == "0d":
+        a = np.array(M[0, 0])
+        return a, a
     if layout == "series":
         s = pd.Series(M.ravel().copy())
         return s, s
@@ -147,9 +160,30 @@ def canary_specs():
 
 
 def layouts_for(spec):
+    """`buffer` = ONE 1-D array owned by the caller, refilled with the new values before every call (so every call overwrites
+    what the previous one passed); 1-D layouts exist for univariate batches (a column) and for streaming rows"""
     if spec["kind"] in c14.LAB:
         return ("1d", "C", "series", "df-single")
-    return LAYOUTS_ARR + LAYOUTS_DF
+    if spec.get("only_1d"):          # univariate twin of a multi-feature spec: the 2-D layouts are exercised there
+        return (("1d", "1d-strided", "series", "df-single") if spec["mode"] == "batch"
+                else ("scalar", "0d", "1d", "buffer", "series", "df-single"))
+    extra = ()
+    if spec["mode"] == "batch" and spec["w"] == 1:
+        extra = ("1d", "1d-strided", "series")
+    elif spec["mode"] == "stream":
+        extra = ("scalar", "0d", "1d", "buffer", "series") if spec["w"] == 1 else ("1d", "buffer")
+    return LAYOUTS_ARR + LAYOUTS_DF + extra
+
+
+def univariate_specs(S):
+    """1-feature versions of the multivariate detectors that accept univariate data"""
+    out = []
+    for spec in S:
+        if spec["name"] in ("NNDVI", "KdqTreeBatch", "HDDDM(detect_batch=1)", "HDDDM(detect_batch=3)", "KdqTreeStreaming"):
+            u = dict(spec)
+            u.update(name=spec["name"] + "[1 feature]", w=1, only_1d=True)
+            out.append(u)
+    return out
 
 
 def history(spec, hrng):
@@ -166,8 +200,18 @@ def run_twin(ctx, spec, hist, layout, case_seed, overwrite, private):
     det = spec["make"]()
     ints = spec["kind"] in c14.LAB
     trace, mutated = [], None
+    buffers = {}
     for i, (method, mats) in enumerate(hist):
-        objs = [make(layout, M, ["y"] if ints else None, ints) for M in mats]
+        if layout == "buffer":
+            objs = []
+            for j, M in enumerate(mats):
+                flat = np.asarray(M, dtype=int if ints else float).ravel()
+                if j not in buffers:
+                    buffers[j] = np.empty(flat.size, dtype=flat.dtype)
+                buffers[j][...] = flat          # the caller refills its one buffer: this overwrites what it passed last time
+                objs.append((buffers[j], buffers[j]))
+        else:
+            objs = [make(layout, M, ["y"] if ints else None, ints) for M in mats]
         args = [copy.deepcopy(o[0]) for o in objs] if private else [o[0] for o in objs]
         before = [snap(a) for a in args]
         e = c14.do_call(det, method, args, c14.seed_of(case_seed, i))
@@ -194,9 +238,9 @@ def detector_part(ctx):
             raise core.Infra("canary detector that keeps its input was not caught for layout " + layout)
     ctx.count("canary-caught", 4)
     nh = 2 if ctx.quick else 6
-    for spec in S + Y:
+    for spec in S + univariate_specs(S) + Y:
         name, L = spec["name"], spec["L"]
-        for h in range(nh):
+        for h in range(1 if (ctx.quick and spec.get("only_1d")) else nh):
             for attempt in range(12):
                 case_seed = int(rng.integers(1 << 30))
                 hist = history(spec, np.random.default_rng(case_seed))
@@ -214,6 +258,10 @@ def detector_part(ctx):
                 positions = ["all"] + list(range(L))
                 if ctx.quick and not cheap and spec["mode"] == "stream":
                     positions = ["all"] + list(range(h % 2, L, 2))
+                if layout == "buffer":
+                    positions = [None, "all"]      # None: the refill before the next call is the only overwrite
+                elif layout == "scalar":
+                    positions = ["all"]
                 for ow in positions:
                     main, mutated = run_twin(ctx, spec, hist, layout, case_seed, ow, False)
                     ctx.traces += 1
@@ -396,7 +444,8 @@ def injector_part(ctx):
 
 # ------------------------------------------------------------------ entry points
 def run(ctx):
-    ctx.rule = ("twins: detector x history (with drifts) x layout (C / Fortran / strided ndarray, single- / mixed-dtype DataFrame; labels: 1-D, "
+    ctx.rule = ("twins: detector (+ 1-feature versions of NNDVI, KdqTreeBatch, HDDDM, KdqTreeStreaming) x history (with drifts) x layout (C / Fortran / "
+                "strided ndarray, single- / mixed-dtype DataFrame; univariate: 1-D ndarray, 1-D strided view, Series, scalar, 0-d array, refilled 1-D buffer; labels: 1-D, "
                 "2-D, Series, DataFrame) x overwrite position ('all' and every single call; quick tier: every second call for the expensive "
                 "streaming detectors, alternating parity over the two histories); injectors: 200 / 2000 random calls each over the 5 layouts; every case is non-trivial: the overwrite "
                 "changes every cell of the caller's object (self-tested), distinct = distinct (component, history, layout, position / call)")
@@ -424,7 +473,7 @@ def replay(ctx, path):
     if "detector" in r and r.get("history"):
         ctx.tier = "quick"
         S, Y = c14.detectors(ctx)
-        spec = next(s for s in S + Y if s["name"] == r["detector"])
+        spec = next(s for s in S + univariate_specs(S) + Y if s["name"] == r["detector"])
         hist = [(h["method"], [np.array(v) for v in h["values"]]) for h in r["history"]]
         ow = r["overwrite_after"]
         with warnings.catch_warnings():
